@@ -66,6 +66,7 @@ type FnExec struct {
 	name         string
 	usedGhosts   map[int]bool
 	implGhost    map[string]Binding
+	guardOrd     map[ssa.Instruction]int
 	asyncCall    bool            // applying a contract at a go statement
 	noAssume     bool            // postconditions at a return are checked independently of each other
 	asyncCallees map[string]bool // goroutines started under contract (assumption: they keep to their frame)
